@@ -8,6 +8,8 @@
 //   -DCFG_CTX=1      0 empty | 1 value | 2 reference | 3 pointer | 4 one-byte value
 //   -DCFG_INJ=0      injections per state (0..3)
 //   -DCFG_BARE=0     the last CFG_BARE states define no callbacks at all
+//   -DCFG_PARTIAL=0  != 0: every state class defines only a (pseudo-random, per state) subset of the callbacks; needs CFG_INJ=1
+//   -DCFG_HEADOUT=3  plan outcome callbacks the root head class defines: bit 0 planSucceeded, bit 1 planFailed (CFG_PARTIAL=0 only)
 //   -DCFG_ORDER=0    order in which the configuration aliases are applied (0..3)
 // plus the library's own FFSM2_ENABLE_* switches on the command line.
 #pragma once
@@ -38,6 +40,12 @@
 #endif
 #ifndef CFG_BARE
 #define CFG_BARE 0
+#endif
+#ifndef CFG_PARTIAL
+#define CFG_PARTIAL 0
+#endif
+#ifndef CFG_HEADOUT
+#define CFG_HEADOUT 3
 #endif
 
 #include VERIF_FFSM2_HEADER
@@ -219,11 +227,24 @@ constexpr unsigned CAP = CFG_CAP != 0 ? CFG_CAP : N;
 constexpr unsigned CAP = 0;
 #endif
 
+// CFG_PARTIAL: which callbacks the class of state <sid> defines itself (bit = ffsm2::Method value).  With exactly one
+// injection per state every delivery stays observable through the injection, whatever the state class omits.
+constexpr unsigned PARTIAL = CFG_PARTIAL;
+static_assert(PARTIAL == 0 || (K == 1 && BARE == 0), "CFG_PARTIAL needs CFG_INJ=1 and CFG_BARE=0");
+constexpr uint32_t scramble(uint32_t x) { return ((x ^ (x >> 15)) * 0x2C1B3C6Du) ^ (((x ^ (x >> 15)) * 0x2C1B3C6Du) >> 12); }
+constexpr uint32_t ownMask(unsigned sid) { return PARTIAL == 0 ? ~0u : scramble(scramble(PARTIAL * 0x9E3779B1u + sid * 0x85EBCA6Bu + 0x1234567u)); }
+constexpr bool defines(unsigned sid, ffsm2::Method m) {
+	return PARTIAL ? (ownMask(sid) >> static_cast<unsigned>(m)) & 1u
+		 : (sid == ROOT && m == ffsm2::Method::PLAN_SUCCEEDED) ? (CFG_HEADOUT & 1) != 0
+		 : (sid == ROOT && m == ffsm2::Method::PLAN_FAILED) ? (CFG_HEADOUT & 2) != 0
+		 : true;
+}
+
 inline const char* name() {
 	static char buf[256];
 	snprintf(buf, sizeof buf, "N%u%s%s-L%u-C%u-P%d-X%d-K%u%s%s%s%s%s%s",
 			 N, HEAD ? "h" : "p", MANUAL ? "m" : "a", L, CAP, CFG_PAYLOAD, CFG_CTX, K,
-			 BARE ? "-bare" : "", HAS_PLANS ? "-plans" : "", HAS_SERIAL ? "-ser" : "", HAS_HISTORY ? "-hist" : "",
+			 BARE ? "-bare" : (PARTIAL ? "-partial" : (CFG_HEADOUT == 3 ? "" : CFG_HEADOUT == 2 ? "-onlyPlanFailed" : CFG_HEADOUT == 1 ? "-onlyPlanSucceeded" : "-noOutcomeCallbacks")), HAS_PLANS ? "-plans" : "", HAS_SERIAL ? "-ser" : "", HAS_HISTORY ? "-hist" : "",
 			 HAS_VERBOSE ? "-vlog" : (HAS_LOG ? "-log" : ""), "");
 	return buf;
 }
